@@ -16,6 +16,7 @@ import (
 	xctx "github.com/xuperchain/xupercore/kernel/common/xcontext"
 	"github.com/xuperchain/xupercore/kernel/consensus"
 	cctx "github.com/xuperchain/xupercore/kernel/consensus/context"
+	"github.com/xuperchain/xupercore/kernel/engines/xuperos"
 	"github.com/xuperchain/xupercore/kernel/engines/xuperos/agent"
 	"github.com/xuperchain/xupercore/kernel/engines/xuperos/common"
 	engconf "github.com/xuperchain/xupercore/kernel/engines/xuperos/config"
@@ -94,6 +95,8 @@ type esim struct {
 	walks   *int64 // successful walks whose re-admission goroutine has started
 	recover *int64 // re-admission goroutines finished
 	trunc   []byte // truncate target the consensus hands to the next mining round (nil: none)
+	chain   *xuperos.Chain // the engine's own entry point for submissions (Chain.SubmitTx)
+	subs    int
 }
 
 // truncCons is the node's consensus with one addition: ProcessBeforeMiner asks for the truncation the behaviour
@@ -129,7 +132,30 @@ func (e *esim) attach() error {
 	}
 	nd.Ctx.Consensus = &truncCons{ConsensusInterface: cons, e: e}
 	e.miner = miner.NewMiner(nd.Ctx)
+	e.chain = xuperos.NewChainForVerif(nd.Ctx)
 	return nil
+}
+
+// submitViaChain hands every second submission to the engine's Chain.SubmitTx (duplicate cache, "inputs required"
+// rule, VerifyTx, DoTx; it decides on the error alone). Result classes: admitted; refused by verification or by
+// DoTx = "stale"; refused for a reason that has nothing to do with input currency (duplicate cache, a transaction
+// without token inputs on a chain with fees) = "other".
+func (e *esim) submitViaChain(name string) (string, fx.Ev, error) {
+	t, err := e.tx(name)
+	if err != nil {
+		return "", nil, err
+	}
+	extra := fx.Ev{"via": "chain"}
+	serr := e.chain.SubmitTx(ectx(), proto.Clone(t).(*pb.Transaction))
+	if serr == nil {
+		return "admit", extra, nil
+	}
+	extra["err"] = serr.Error()
+	ce := common.CastError(serr)
+	if ce.Equal(common.ErrTxVerifyFailed) || ce.Equal(common.ErrSubmitTxFailed) {
+		return "stale", extra, nil
+	}
+	return "other", extra, nil
 }
 
 func (e *esim) hook() {
@@ -330,6 +356,10 @@ func (e *esim) estep(op fx.Ev) (string, fx.Ev, error) {
 		}
 		return "ok", extra, nil
 	case "submit":
+		e.subs++
+		if e.subs%2 == 0 {
+			return e.submitViaChain(op.Str("t"))
+		}
 		return e.step(op)
 	}
 	return "", nil, fmt.Errorf("unknown engine op %q", op.Str("op"))
